@@ -225,7 +225,7 @@ theorem entryStep_panicked (style : List Char) (st : PState) (nr : Nat) (l : Lis
     split at h
     · split at h
       · exact Or.inl h
-      · exact Or.inl h
+      · exact Or.inl (hc ▸ h)
     · split at h
       · exact Or.inl (hc ▸ h)
       · have hrest : (match parseValue style.length (l.drop style.length) with
